@@ -371,6 +371,9 @@ def generate(repo, vc_path, out_path):
             out, info = weave_item(repo, sec, cache, log, u.unit_re)
             items.append(info)
             lines += out
+    # one entry per physical line (rewrites and import-lits may have put several lines into one entry): every later step maps
+    # verifier diagnostics to entries by line number
+    lines = [(o, part) for o, t in lines for part in t.split('\n')]
     text = '\n'.join(t for _, t in lines) + '\n'
     os.makedirs(os.path.dirname(out_path), exist_ok=True)
     open(out_path, 'w').write(text)
